@@ -372,6 +372,26 @@ func (g *TyGen) Inject(decls []*ast.Decl, class string) ([]*ast.Decl, string) {
 			_ = nm
 		}
 		out = append(out, extra...)
+		if g.Chance(40, "lasso") {
+			// a lasso: definitions that lead into the cycle without being part of it, listed before
+			// every member of the cycle (a checker that only notices returning to where it started
+			// never notices this one)
+			n := g.Int(1, 3, "lassolen")
+			var entry []*ast.Decl
+			for j := 0; j < n; j++ {
+				target := first
+				if j+1 < n {
+					target = fmt.Sprintf("La%d", j+1)
+				}
+				var body *ast.Ty = ast.NameTy(m, target)
+				if j == 0 && g.Chance(25, "underconstructor") {
+					body = ast.Tensor(m, ast.One(m), ast.NameTy(m, target))
+				}
+				entry = append(entry, &ast.Decl{Kind: ast.DType, Name: fmt.Sprintf("La%d", j), Ty: body})
+			}
+			out = append(entry, out...)
+			return out, fmt.Sprintf("alias cycle of length %d through %s, entered through a chain of %d definitions listed first", k+1, first, n)
+		}
 		return out, fmt.Sprintf("alias cycle of length %d through %s", k+1, first)
 	case "unknown-mode":
 		bad := g.Of([]string{"foo", "shared", "linn", "x", "replicable2", "unrestricted"}, "badmode")
